@@ -61,7 +61,7 @@ func (d *dumper) parseContracts(p *packages.Package, lines []*contractSrc, decls
 		cur["clauses"] = cl
 		out[curKey] = cur
 	}
-	kw := regexp.MustCompile(`^\s*(func|iface|requires|ensures|loop|trusted|pure|abstract|stub|opaque|canary|assume|modifies|nosafety|noframe|unfold|inline|bounded|note|paths|trusts|allocates|waits|emits|observe|dispatch)\b(.*)$`)
+	kw := regexp.MustCompile(`^\s*(func|iface|requires|ensures|loop|trusted|pure|abstract|stub|opaque|canary|assume|modifies|nosafety|noframe|unfold|inline|bounded|note|paths|trusts|allocates|waits|cover|emits|observe|dispatch)\b(.*)$`)
 	for _, l := range lines {
 		m := kw.FindStringSubmatch(l.text)
 		if m == nil {
@@ -98,7 +98,7 @@ func (d *dumper) parseContracts(p *packages.Package, lines []*contractSrc, decls
 				cur["flags"].(map[string]any)[m[1]] = rest
 			}
 			last = nil
-		case "requires", "ensures", "assume", "canary", "trusts", "allocates", "waits":
+		case "requires", "ensures", "assume", "canary", "trusts", "allocates", "waits", "cover":
 			c := &clause{kind: m[1], ln: ln}
 			if m[1] == "canary" {
 				// "canary ensures [label] expr"
